@@ -383,6 +383,13 @@ def from_arg(
         no_override = arg._index_override is None
         if docstring_is_none and first_const and arg_is_string and no_override:
             constants[0] = None
+        # A string which is put at the first index explicitly would become the
+        # docstring, which contradicts the docstring being None
+        if docstring_is_none and arg_is_string and arg._index_override == 0:
+            raise ValueError(
+                "A string constant at index 0 would be the docstring of a function "
+                "without a docstring"
+            )
 
         return constants.add(arg.constant, arg._index_override)
     return arg
